@@ -3,6 +3,7 @@
 package main
 
 import (
+	"reflect"
 	"encoding/json"
 	"flag"
 	"fmt"
@@ -495,6 +496,84 @@ func tables(repo, out, js string) {
 		}
 		all["transformerOrder"] = order
 		b.WriteString("def transformerOrder : List String := " + leanStrList(order) + "\n\n")
+	}
+	// ---- kustomize edit: marshalling order of the kustomization fields, and the struct's fields with their YAML keys
+	{
+		if err := l.load("kustomize", "./commands/internal/kustfile"); err != nil {
+			fail(err.Error())
+		}
+		kp := l.pkg("sigs.k8s.io/kustomize/kustomize/v5/commands/internal/kustfile")
+		fd := funcDecl(kp, "", "determineFieldOrder")
+		var ordered, pre []string
+		deprecated := map[string]bool{}
+		ast.Inspect(fd, func(n ast.Node) bool {
+			as, ok := n.(*ast.AssignStmt)
+			if !ok || len(as.Lhs) != 1 || len(as.Rhs) != 1 {
+				return true
+			}
+			name := types.ExprString(as.Lhs[0])
+			switch rhs := as.Rhs[0].(type) {
+			case *ast.CompositeLit:
+				if name == "ordered" {
+					ordered = stringList(kp, rhs, "determineFieldOrder.ordered")
+				}
+				if name == "deprecated" {
+					for _, el := range rhs.Elts {
+						if kv, ok := el.(*ast.KeyValueExpr); ok {
+							if v, ok := constOf(kp, kv.Key); ok {
+								deprecated[v] = true
+							}
+						}
+					}
+				}
+			case *ast.CallExpr:
+				if name == "result" && types.ExprString(rhs.Fun) == "append" {
+					for _, a := range rhs.Args[1:] {
+						if v, ok := constOf(kp, a); ok {
+							pre = append(pre, v)
+						}
+					}
+				}
+			}
+			return true
+		})
+		if len(ordered) == 0 || len(pre) == 0 {
+			fail("determineFieldOrder: ordered list / inlined TypeMeta fields not found")
+		}
+		order := append([]string{}, pre...)
+		for _, f := range ordered {
+			if !deprecated[f] {
+				order = append(order, f)
+			}
+		}
+		all["fieldMarshallingOrder"] = order
+		b.WriteString("def fieldMarshallingOrder : List String := " + leanStrList(order) + "\n\n")
+		tp := l.pkg("sigs.k8s.io/kustomize/api/types")
+		st, ok := tp.Types.Scope().Lookup("Kustomization").Type().Underlying().(*types.Struct)
+		if !ok {
+			fail("types.Kustomization is not a struct")
+		}
+		var q []string
+		var flds [][2]string
+		var addFields func(st *types.Struct)
+		addFields = func(st *types.Struct) {
+			for i := 0; i < st.NumFields(); i++ {
+				f := st.Field(i)
+				tag := reflect.StructTag(st.Tag(i)).Get("json")
+				key := strings.Split(tag, ",")[0]
+				if f.Embedded() && strings.Contains(tag, "inline") {
+					if es, ok := f.Type().Underlying().(*types.Struct); ok {
+						addFields(es)
+					}
+					continue
+				}
+				flds = append(flds, [2]string{f.Name(), key})
+				q = append(q, fmt.Sprintf("(%s, %s)", lq(f.Name()), lq(key)))
+			}
+		}
+		addFields(st)
+		all["kustomizationFields"] = flds
+		b.WriteString("def kustomizationFields : List (String × String) := [" + strings.Join(q, ", ") + "]\n\n")
 	}
 	b.WriteString("end Kust.Gen\n")
 	writeIfChanged(filepath.Join(out, "Lists.lean"), b.String())
